@@ -69,6 +69,11 @@ def obligations(pid, tier):
                       pre=['1 <= cap <= 3', '1 <= nwait <= 4', '0 <= kind <= 1'], timeout=T, group='connect failures',
                       bound='capacity 1..3, 1..4 concurrent requests on one database; every connect fails (ordinary error until the '
                             'retries are exhausted, or 3D000), optionally after one successful connect'))
+        # known finding F21: un-narrowed instance on the witness recipe (thorough: needs 4 actions and fault level 2)
+        if not quick:
+            obs.append(Ob(id='F21.acquire-after-aborted-prune', module=M, func='explore_raw2', params='c1: int, c2: int',
+                          pre=['9 <= c1 <= 10 and 4 <= c2 <= 6'], args='2, 2, 1, 1, 0, 0, False, 0, 3, c1, c2, 0, 0, 4, True',
+                          timeout=T, group='F21', finding='F21'))
         # known finding F8: un-narrowed instance, restricted to the witness recipe
         obs.append(Ob(id='F8.waitlisted-never-served', module=M, func='explore_raw', params='c0: int, c1: int',
                       pre=['0 <= c0 <= 11 and 0 <= c1 <= 11'],
